@@ -125,12 +125,12 @@ func (p *Processor) Run(ctx context.Context) error {
 
 				state, err := p.store.LoadOffset(ctx, seg.Topic, seg.Partition)
 				if err != nil {
-					continue
+					break
 				}
 
 				records, err := p.decode.Decode(ctx, seg.SegmentKey, seg.IndexKey, seg.Topic, seg.Partition)
 				if err != nil {
-					continue
+					break
 				}
 				if len(records) == 0 {
 					continue
@@ -148,7 +148,7 @@ func (p *Processor) Run(ctx context.Context) error {
 				err = p.sink.Write(ctx, mapped)
 				unlock()
 				if err != nil {
-					continue
+					break
 				}
 
 				last := mapped[len(mapped)-1]
